@@ -399,13 +399,17 @@ def _scale(s, m):
 
 
 class SymZeros(SymMat):
-    """np.zeros(...) followed by block assignments; frozen into a 'grid' node when read."""
+    """np.zeros(...) / np.empty(...) followed by block assignments; frozen into a 'grid' node when read.
+    Blocks may be assigned through any slice object (slice(), np.s_[...], Ellipsis), directly or through a view
+    `M[rows, cols][...] = value`; a block may be set to the scalar 0; with np.empty every block must be assigned
+    before the matrix is read."""
 
-    def __init__(self, shape):
+    def __init__(self, shape, initialised=True):
         SymMat.__init__(self, None)
         self.__dict__['_shape'] = shape           # ints
-        self.__dict__['_assign'] = []             # (r0, r1, c0, c1, node)
+        self.__dict__['_assign'] = []             # (r0, r1, c0, c1, node or None = zero block)
         self.__dict__['_frozen'] = None
+        self.__dict__['_initialised'] = initialised
 
     def _node(self):
         if self._frozen is None:
@@ -419,30 +423,49 @@ class SymZeros(SymMat):
         if self._frozen is not None:
             _tr().bind(var, self._frozen)
 
-    def __setitem__(self, key, val):
-        if self._buf.dead:
-            raise TraceError("assignment into a buffer after " + self._buf.dead)
-        v = _mat(val, 'block assignment')
-        one_d = len(self._shape) == 1
+    def _ranges(self, key, what):
         keys = key if isinstance(key, tuple) else (key,)
+        if len(keys) == 1 and keys[0] is Ellipsis:
+            keys = (slice(None),) * len(self._shape)
         if len(keys) != len(self._shape):
-            raise TraceError("block assignment: wrong number of indices")
+            raise TraceError(f"{what}: wrong number of indices")
         rng = []
         for s, total in zip(keys, self._shape):
+            if s is Ellipsis:
+                s = slice(None)
             if not isinstance(s, slice) or s.step not in (None, 1):
-                raise TraceError(f"block assignment index {s!r}: only slices are modelled")
+                raise TraceError(f"{what} index {s!r}: only slices are modelled")
             lo = 0 if s.start is None else s.start
             hi = total if s.stop is None else s.stop
             if not all(isinstance(x, (int, np.integer)) and not isinstance(x, bool) for x in (lo, hi)) \
                     or lo < 0 or hi > total or lo >= hi:
-                raise TraceError(f"block assignment slice [{lo}:{hi}] outside 0..{total} or empty")
+                raise TraceError(f"{what} slice [{lo}:{hi}] outside 0..{total} or empty")
             rng.append((int(lo), int(hi)))
-        t = _tr()
-        if t.size(v.rdim) != rng[0][1] - rng[0][0] or \
-                (not one_d and (v.cdim is None or t.size(v.cdim) != rng[1][1] - rng[1][0])) or \
-                (one_d and v.cdim is not None):
-            raise TraceError("block assignment: value shape differs from the target block "
-                             "(broadcasting is not modelled)")
+        return rng
+
+    def __getitem__(self, key):
+        rng = self._ranges(key, 'block view')
+        return _ZerosView(self, rng)
+
+    def __setitem__(self, key, val):
+        self._set(self._ranges(key, 'block assignment'), val)
+
+    def _set(self, rng, val):
+        if self._buf.dead:
+            raise TraceError("assignment into a buffer after " + self._buf.dead)
+        one_d = len(self._shape) == 1
+        if _is_scalar(val) and not isinstance(val, SymScalar):
+            if float(val) != 0.0:
+                raise TraceError("block assignment of a non-zero scalar (broadcasting is not modelled)")
+            v = None                                            # explicit zero block
+        else:
+            v = _mat(val, 'block assignment')
+            t = _tr()
+            if t.size(v.rdim) != rng[0][1] - rng[0][0] or \
+                    (not one_d and (v.cdim is None or t.size(v.cdim) != rng[1][1] - rng[1][0])) or \
+                    (one_d and v.cdim is not None):
+                raise TraceError("block assignment: value shape differs from the target block "
+                                 "(broadcasting is not modelled)")
         (r0, r1), (c0, c1) = rng[0], (rng[1] if not one_d else (0, 1))
         self._assign.append((r0, r1, c0, c1, v))
         self.__dict__['_frozen'] = None
@@ -456,7 +479,7 @@ class SymZeros(SymMat):
             segs = list(zip(cuts[:-1], cuts[1:]))
             dims = []
             for (lo, hi) in segs:
-                ds = {d for (a, b, d) in ranges if (a, b) == (lo, hi)}
+                ds = {d for (a, b, d) in ranges if (a, b) == (lo, hi) and d is not None}
                 if any(a < hi and b > lo and (a, b) != (lo, hi) for (a, b, _) in ranges):
                     raise TraceError(f"np.zeros blocks: overlapping / nested {axis} ranges")
                 if len(ds) > 1:
@@ -464,19 +487,68 @@ class SymZeros(SymMat):
                 dims.append(ds.pop() if ds else t.dim_of_int(hi - lo, f"unassigned {axis} range [{lo}:{hi}]"))
             return segs, dims
 
-        rsegs, rdims = partition(self._shape[0], [(r0, r1, v.rdim) for r0, r1, _, _, v in self._assign], 'row')
+        rsegs, rdims = partition(self._shape[0],
+                                 [(r0, r1, None if v is None else v.rdim) for r0, r1, _, _, v in self._assign], 'row')
         if one_d:
             csegs, cdims = [(0, 1)], [None]
         else:
-            csegs, cdims = partition(self._shape[1], [(c0, c1, v.cdim) for _, _, c0, c1, v in self._assign], 'column')
-        blocks = {}
+            csegs, cdims = partition(self._shape[1],
+                                     [(c0, c1, None if v is None else v.cdim) for _, _, c0, c1, v in self._assign],
+                                     'column')
+        blocks, seen = {}, set()
         for r0, r1, c0, c1, v in self._assign:          # later assignments win
-            blocks[(rsegs.index((r0, r1)), csegs.index((c0, c1)))] = v
+            key = (rsegs.index((r0, r1)), csegs.index((c0, c1)))
+            seen.add(key)
+            if v is None:
+                blocks.pop(key, None)
+            else:
+                blocks[key] = v
+        if not self._initialised:
+            missing = [(i, j) for i in range(len(rsegs)) for j in range(len(csegs)) if (i, j) not in seen]
+            if missing:
+                raise TraceError(f"np.empty: blocks {missing} are read before they are assigned")
         rdim = tuple(a for d in rdims for a in d)
         cdim = None if one_d else tuple(a for d in cdims for a in d)
         if not blocks:
             return Node(t, 'zeros', (), rdim, cdim)
         return Node(t, 'grid', (tuple(rdims), tuple(cdims), blocks), rdim, cdim)
+
+
+class _ZerosView(SymMat):
+    """M[rows, cols] of a matrix under construction: reading it reads the block of the matrix as built so far;
+    `view[...] = value` (or a full slice) assigns the block of the parent."""
+
+    def __init__(self, parent, rng):
+        SymMat.__init__(self, None, parent._buf)
+        self.__dict__['_parent'] = parent
+        self.__dict__['_rng'] = rng
+
+    def _node(self):
+        p = self._parent
+        key = tuple(slice(lo, hi) for lo, hi in self._rng)
+        n = p._node()
+        rs, cs = _slices(n, key if len(key) > 1 else key[0])
+        if rs == (0, len(n.rdim)) and (cs is None or cs == (0, len(n.cdim))):
+            return n
+        cache = self.__dict__.setdefault('_cache', {})
+        if id(n) not in cache:
+            rdim = n.rdim[rs[0]:rs[1]]
+            cdim = None if cs is None else n.cdim[cs[0]:cs[1]]
+            cache[id(n)] = Node(_tr(), 'blk', (n, rs, cs), rdim, cdim)
+        return cache[id(n)]
+
+    def _named(self, var):
+        self.__dict__['_var'] = var
+
+    def __getitem__(self, key):
+        return SymMat(self._use(), self._buf)[key]
+
+    def __setitem__(self, key, val):
+        keys = key if isinstance(key, tuple) else (key,)
+        full = all(k is Ellipsis or (isinstance(k, slice) and k == slice(None)) for k in keys)
+        if not full or len(keys) > len(self._rng):
+            raise TraceError("assignment into a part of a block view is not modelled")
+        self._parent._set(self._rng, val)
 
 
 # ---------------------------------------------------------------------------
@@ -527,6 +599,19 @@ class _NpProxy:
         if len(shape) not in (1, 2) or min(shape) <= 0:
             raise TraceError(f"np.zeros: shape {shape}")
         return SymZeros(shape)
+
+    def empty(self, shape, dtype=float, order='C'):
+        z = self.zeros(shape, dtype=dtype, order=order)
+        z.__dict__['_initialised'] = False           # every block must be assigned before the matrix is read
+        return z
+
+    s_ = np.s_
+    index_exp = np.index_exp
+
+    def swapaxes(self, a, axis1, axis2):
+        if not isinstance(a, SymMat) or a.ndim != 2 or {axis1 % 2, axis2 % 2} != {0, 1}:
+            raise TraceError("np.swapaxes: only the transposition of a matrix")
+        return a.T
 
     def __getattr__(self, name):
         raise TraceError(f"np.{name} is not modelled")
